@@ -60,6 +60,9 @@ TERMINAL_KINDS = [
     ("WorkflowCancelledEvent", ["StopEvent"]),
     ("WorkflowFailedEvent", ["StopEvent"]),
     ("MyStop", ["StopEvent"]),
+    # envelopes built from INSTANCES of real classes by EventEnvelopeWithMetadata.from_event (what the server runtime does): plain and
+    # deep StopEvent subclasses, and subclasses with a non-Event mixin before / after StopEvent in the bases
+    ("@real", 1), ("@real", 2), ("@real", 3), ("@real", 3), ("@real", 4), ("@real", 5), ("@real", 0),
 ]
 PLAIN_KINDS = [
     ("Event", []),
@@ -67,6 +70,7 @@ PLAIN_KINDS = [
     ("StepStateChanged", ["InternalDispatchEvent"]),
     ("StopEventLike", ["Other"]),
     ("Progress", None),
+    ("@real", 0), ("@real", 1),
 ]
 DELAYS = [0, 0, "y", "y", 0.05, 0.1, 0.1, 0.2, 0.35]
 
@@ -124,6 +128,12 @@ def _envelope(Env, uid: int, ev: dict, run: str):
         typ, types = TERMINAL_KINDS[ev["term"]]
     else:
         typ, types = PLAIN_KINDS[ev["kind"]]
+    if typ == "@real":
+        from vf import c16_events as ce
+
+        cls = (ce.TERMINAL if ev["term"] is not None else ce.PLAIN)[types]
+        env = Env.from_event(cls(uid=uid, run=run))
+        return env.model_copy(update={"value": {"uid": uid, "run": run}})
     return Env(value={"uid": uid, "run": run}, qualified_name=None, type=typ, types=types)
 
 
